@@ -98,6 +98,7 @@ def jobs(tier, seed):
             out.append({'fn': 'mode_switch', 'cfg': {'recv': recv, 'n': n, 'amount': amt},
                         'opts': {'linearise': True, 'feas_ms': 1000}})
     out.append({'fn': 'bad_ratios', 'cfg': {}})
+    out.append({'fn': 'concrete_sequences', 'cfg': {}})
     out.append({'fn': 'ratios_sym', 'cfg': {'recv': 'dv', 'n': 2, 'disperse': True, 'amount': '10', 'mode': 'ROUND_HALF_EVEN',
                                             'flav': 'frac', 'canary': True}, 'opts': {'linearise': True}, 'canary': True})
     LAST_CONFIG_INFO.clear()
@@ -208,6 +209,56 @@ def amount_sym(E, cfg):
     portions, remainder = q.allocate(ratios, cfg['disperse'])
     _obligations(E, q, amount_before, exact, portions, remainder, quantum, cfg['disperse'], cfg['mode'], cls, unit, cfg)
     E.observe('portions', [p.amount for p in portions])
+
+
+def concrete_sequences(E, cfg):
+    """concrete allocations in sequences: the same ratios object changed in place between two calls; ratios given as
+    quantities of a quantized type (pieces, yen, bytes); tuples and generators-turned-lists"""
+    from decimalfp import Decimal
+    from quantity import Quantity
+    import quantity.predefined as pre
+    from quantity.money import Money
+    mode = E.choice('mode', ['ROUND_HALF_EVEN', 'ROUND_HALF_UP', 'ROUND_FLOOR'])
+    C.set_default_mode(mode)
+    case = E.choice('case', ['same-list-changed', 'same-list-extended', 'quantized-ratios-pieces', 'quantized-ratios-yen',
+                             'quantized-ratios-bytes'])
+    recv = E.choice('recv', ['money', 'dv', 'mass'])
+    cls, unit, quantum = _receiver(E, recv)
+    amounts = {'money': ['12.70', '100', '0.07'], 'dv': ['10', '0.125'], 'mass': ['10', '1/7']}[recv]
+    amt = E.choice('amount', amounts)
+    q = cls(C.num(amt), unit)
+    before = q.amount
+    info = [mode, case, recv, amt]
+    if case.startswith('same-list'):
+        key = [1, 1]
+        portions, rem = q.allocate(key)
+        _obligations(E, q, before, [Fraction(1), Fraction(1)], portions, rem, quantum, True, mode, cls, unit, info + ['first'])
+        if case == 'same-list-changed':
+            key[1] = 3
+        else:
+            key.append(4)
+        portions, rem = q.allocate(key)
+        E.check(len(portions) == len(key), 'one-portion-per-ratio', key='alloc-seq:portion-count', info=info)
+        _obligations(E, q, before, [Fraction(k) for k in key], portions, rem, quantum, True, mode, cls, unit, info + ['second'])
+        portions, rem = q.allocate(tuple(key), False)
+        _obligations(E, q, before, [Fraction(k) for k in key], portions, rem, quantum, False, mode, cls, unit, info + ['tuple'])
+        return
+    if case == 'quantized-ratios-pieces':
+        P = C.mk_cls('Pieces', ref_unit_symbol='pcs', quantum=1)
+        vecs = [[3, 1, 12, 3], [1, 1, 1], [2, 5], [1, 2, 3, 4, 5]]
+        mk = lambda n: P(n, P.ref_unit)
+    elif case == 'quantized-ratios-yen':
+        jpy = Money.register_currency('JPY')
+        vecs = [[3, 1, 12, 3], [7, 11, 13], [1, 1]]
+        mk = lambda n: Money(n, jpy)
+    else:
+        vecs = [[3, 1, 12, 3], [1, 1, 1], [5, 2]]
+        mk = lambda n: Quantity(n, pre.BYTE)
+    vec = E.choice('ratios', vecs)
+    for disperse in (True, False):
+        portions, rem = q.allocate([mk(n) for n in vec], disperse)
+        _obligations(E, q, before, [Fraction(n) for n in vec], portions, rem, quantum, disperse, mode, cls, unit,
+                     info + [vec, disperse])
 
 
 def bad_ratios(E, cfg):
